@@ -88,6 +88,7 @@ func verifC06Case(vc *verifCtx, i int) {
 	e.oracles = map[string]bool{"tx_exact": false}
 	lastRel := [2]int64{-1, -1}
 	e.hooks.onRelease = verifC06ReleaseHook(&lastRel)
+	e.probeLiveSync = true
 	hostile := 0
 	for a := 0; a < nActions && !e.ended; a++ {
 		// hostile revocation: when a revoke_and_ack is at the head of a
@@ -135,6 +136,24 @@ func verifC06Case(vc *verifCtx, i int) {
 			break
 		}
 		if fr.Intn(100) < faultPct {
+			// mid-handler crash with a reconnect attempt on the live
+			// object first
+			midDone := false
+			if fr.Chance(1, 2) {
+				for d := 0; d < 2 && !midDone; d++ {
+					if len(e.q[d]) > 0 && e.q[d][0].Kind == "sig" {
+						if e.actDeliver(d, true) {
+							e.nRestarts++
+							e.reconnect("restart (mid-handler)", false)
+							midDone = true
+						}
+					}
+				}
+			}
+			if midDone {
+				e.checkStep()
+				continue
+			}
 			if fr.Bool() {
 				e.nRestarts++
 				e.reconnect("restart", false)
